@@ -19,6 +19,17 @@ Theorem C05_module_simulation : forall orc fuel b o tr pos e,
 Proof. exact module_simulation. Qed.
 Print Assumptions C05_module_simulation.
 
+(* Function placement:  def f(): <skeleton with return at any depth>   then   r(f()).
+   The call returns the value of the return statement that was taken (None when none was), after exactly the same
+   trace; a return inside nested loops stops every enclosing loop and skips every else clause. *)
+Theorem C05_function_simulation : forall orc fuel b sx e,
+  wf_block false true b = true ->
+  exec_function orc fuel b = Some sx ->
+  lower_module cfg0 fun_symtab (fun_program b) = inl e ->
+  exists f v s', run orc f (MExpr e) (mkSt [] [] 0) = Some (v, s') /\ s_tr s' = x_tr sx /\ s_pos s' = x_pos sx.
+Proof. exact function_simulation. Qed.
+Print Assumptions C05_function_simulation.
+
 (* the general simulation invariant (any context: inside loops, with any flags in use), for every fuel *)
 Theorem C05_simulation_invariant : forall orc f, SimBlock orc f /\ SimWhileLoop orc f /\ SimForLoop orc f.
 Proof. exact sim_all. Qed.
